@@ -361,9 +361,12 @@ bool World::run(uint64_t until, unsigned max_steps) {
 
 // ---------------------------------------------------------------- PRNG
 static uint64_t g_prng_state = 0x9E3779B97F4A7C15ull;
+static std::vector<uint8_t> g_prng_prefix;
+static size_t g_prng_prefix_pos = 0;
 static int prng_fn(void *buf, size_t len) {
   uint8_t *b = (uint8_t *)buf;
   for (size_t i = 0; i < len; i++) {
+    if (g_prng_prefix_pos < g_prng_prefix.size()) { b[i] = g_prng_prefix[g_prng_prefix_pos++]; continue; }
     g_prng_state ^= g_prng_state << 13;
     g_prng_state ^= g_prng_state >> 7;
     g_prng_state ^= g_prng_state << 17;
@@ -371,7 +374,9 @@ static int prng_fn(void *buf, size_t len) {
   }
   return 1;
 }
-void seed_prng(uint64_t seed) {
+void seed_prng(uint64_t seed, const std::vector<uint8_t> &prefix) {
+  g_prng_prefix = prefix;
+  g_prng_prefix_pos = 0;
   g_prng_state = seed * 0x9E3779B97F4A7C15ull + 0x1234567ull;
   if (!g_prng_state) g_prng_state = 1;
   coap_set_prng(prng_fn);
